@@ -339,7 +339,7 @@ func (t *Transport) run() {
 			for _, cq := range t.idleConns {
 				length := cq.Length()
 				for i := 0; i < length; i++ {
-					if cq.Rear().value.lastTime.Add(t.IdleConnTimeout).Before(time.Now()) {
+					if cq.Rear().value.lastTime.Add(t.IdleConnTimeout).Before(time.Now()) && cq.Front().value.NumCalls() == 0 {
 						pc := cq.Dequeue()
 						pc.Close()
 					} else {
@@ -383,9 +383,15 @@ func (t *Transport) CloseIdleConnections() {
 		length := cq.Length()
 		for i := 0; i < length; i++ {
 			pc := cq.Dequeue()
-			pc.Close()
+			if pc.NumCalls() == 0 {
+				pc.Close()
+			} else {
+				cq.Enqueue(pc)
+			}
 		}
-		delete(t.idleConns, cq.addr)
+		if cq.Length() == 0 {
+			delete(t.idleConns, cq.addr)
+		}
 	}
 }
 
